@@ -74,6 +74,16 @@ def family(seed, n_scn, users_per):
                     s.entry(h, u, [{"t": t, "amt": a, "to": [(sink, a)]}, {"t": "PEG", "amt": c, "conv": "pUSD"}])
                 else:
                     s.entry(h, u, [{"t": t, "amt": 0, "to": [(sink, 0)]}])
+            # systematic: a conversion followed by a spend of the converted asset that only the not-yet-credited conversion output could
+            # cover (every transaction of a batch must be affordable from the balance the address holds when the batch executes)
+            for j, u in enumerate(users[:3]):
+                dst = ["pUSD", "pXBT", "pUSD"][j]
+                a = max(1, s.B(u, "PEG") // 4)
+                credit = a * scen.RATES["PEG"] // scen.RATES[dst]
+                have = s.B(u, dst)
+                sp = [have + credit, have + 1, have + max(1, credit // 2)][(j + rd) % 3]
+                if credit >= 1:
+                    s.entry(h, u, [{"t": "PEG", "amt": a, "conv": dst}, {"t": dst, "amt": sp, "to": [(sink, sp)]}])
             h += 1
             if rnd.random() < 0.4:
                 h += 1      # an unrated block in between
@@ -82,12 +92,19 @@ def family(seed, n_scn, users_per):
         s.grade(h)
         s.tip(h)
         docs.append((s.s["name"], s.doc()))
+    docs += bank_chains(seed, 1 if n_scn <= 6 else 3)
+    return docs
+
+
+def bank_chains(seed, count, prefix="c03"):
+    docs = []
+    rnd = random.Random(seed * 1000003 + 77)
     # bank era: the PEG of a conversion into PEG is credited in a later pass; batches that draw on PEG around such a
     # conversion (each draw affordable alone, together not). On the unchanged tree the implementation fails the whole block
     # for the over-drawing shape (known legacy behaviour, no verdict here); the other shapes must be all-or-nothing.
-    for k in range(1 if n_scn <= 6 else 3):
+    for k in range(count):
         L = scen.LEG
-        s = scen.Scn("c03-bank-%d" % k, sched=L, seed=seed * 100 + 50 + k, assets=["PEG", "pUSD", "pFCT", "pXBT"])
+        s = scen.Scn("%s-bank-%d" % (prefix, k), sched=L, seed=seed * 100 + 50 + k, assets=["PEG", "pUSD", "pFCT", "pXBT"])
         us = [s.key("B%d" % i) for i in range(1, 5)]
         for h in range(1, 21):
             s.grade(h, n=10 if h < L["GradingV2"] else 25, spr=False)
